@@ -28,8 +28,12 @@ EXPLANATION = (
     "row group at the file offset and advances it by the bytes written; (5) structs defined twice in "
     "different units have identical fields and every hand-written extern prototype equals the "
     "definition's type; (6) compress_data appends the caller's raw bytes only under codec == "
-    "UNCOMPRESSED; emitted match offsets fit their 16-bit field. Decides these clauses, not acceptance by "
-    "an independent reader nor determinism of bytes.")
+    "UNCOMPRESSED; emitted match offsets fit their 16-bit field; (7) determinism, structural part: in "
+    "the functions reachable from the carquet_writer_* entry points (call graph, dispatch slots resolved) "
+    "every mutable static local is overwritten before it is read in each call, every mutable file-scope "
+    "variable used is thread-local or a lazily built call-independent table, and nothing consults the "
+    "clock, the process or a random source. Decides these clauses, not acceptance by an independent reader "
+    "nor byte equality of two runs (allocator addresses and library codecs are outside the rule).")
 
 PT = "src/thrift/parquet_types.c"
 PW = "src/writer/page_writer.c"
@@ -55,6 +59,16 @@ def run(ctx):
     ctx.clause("C05.4 offsets accumulate from what was written; close order")
     ctx.clause("C05.5 duplicated struct definitions and extern prototypes agree")
     ctx.clause("C05.6 page bytes of a non-UNCOMPRESSED chunk are always the codec's output")
+    ctx.clause("C05.7 no state is carried from one writer call to the next (static locals, globals, clock/entropy)")
+    from ..rules import hidden
+    from .. import callgraph
+    cg = callgraph.get(P)
+    wroots = set(f.key() for f in P.functions.values() if f.name.startswith("carquet_writer_") and not f.static)
+    wreach = [P.functions[k] for k in sorted(cg.reachable(wroots))]
+    ctx.floor("C05 functions reachable from the writer entry points", len(wreach), 90)
+    ndecl, nglob, ncall = hidden.check(ctx, wreach, sorted(set(P.rel(f.file) for f in wreach)))
+    ctx.floor("C05 local declarations examined for static storage", ndecl, 300)
+    ctx.floor("C05 calls examined for clock/entropy sources", ncall, 400)
     from ..rules import codecrepr
     codecrepr.writer(ctx)
     # ---- (1)
